@@ -317,6 +317,8 @@ _t_c02 = targets
 def targets(tier='quick'):
     T = _t_c02(tier)
     T.append(PtReadoutTarget())
+    from . import prep
+    T += prep.wrapper_targets(PROP, 'tempo_compute', rp) + prep.wrapper_targets(PROP, 'pt_tempo_compute', rp)
     t = Target('pt/update_process_tensor', 'backends.pt_tempo_backend.PtTempoBackend.update_process_tensor', scen_update_pt, post_update_pt, update_registry(), PROP,
                replay=rp)
     t.path_end = path_end_update
